@@ -25,4 +25,5 @@ def check(ctx, prog):
     model.rule_constants(ctx, prog, want=("events", "status", "axes"))
     branching.check_value_heuristics(ctx, prog)  # scope: R-BRANCH-EVENTS (a decision whose moved bounds are not announced leaves watchers asleep)
     propagators.rule_enforce_entail(ctx, prog)
+    propagators.rule_mirror_entail(ctx, prog)
     engine.rule_queue_writers(ctx, prog, thorough=thorough)
